@@ -1,23 +1,26 @@
 #!/bin/bash
 # usage: seedtest.sh <worktree> <out dir with patch.diff demo.sh> <check ids...>
 # 1) confirms in the scratch worktree: patch applies, suite passes, demo fails with / passes without the patch
-# 2) applies the patch to /repo, runs the given checks, restores /repo
+# 2) runs the given checks against the worktree with the patch applied (VERIF_REPO), evidence and replays go to a
+#    scratch directory; /repo is not touched, so several of these can run side by side
 wt=$1; out=$2; shift 2
 export GOFLAGS=-mod=mod GOPROXY=off GOSUMDB=off GOTOOLCHAIN=local
 cd $wt || exit 2
 git checkout -q -- . ; git status --short | grep -v '^??' && { echo "worktree dirty"; exit 2; }
+git checkout -q --detach $(git -C /repo rev-parse HEAD) || { echo "cannot move worktree to /repo HEAD"; exit 2; }
 git apply $out/patch.diff || { echo "PATCH-DOES-NOT-APPLY"; exit 2; }
 go build ./... || { echo "BUILD-FAILS"; git checkout -q -- .; exit 2; }
-if go test -vet=off -count=1 ./... >/tmp/seed_suite.log 2>&1; then echo "suite: pass with patch"; else echo "suite: FAILS with patch"; grep -- '--- FAIL' /tmp/seed_suite.log | head -3; fi
-(bash $out/demo.sh >/tmp/seed_demo1.log 2>&1); echo "demo with patch: exit $?"
+tmp=$(mktemp -d /tmp/seedtest.XXXXXX)
+if go test -vet=off -count=1 ./... >$tmp/suite.log 2>&1; then echo "suite: pass with patch"; else echo "suite: FAILS with patch"; grep -- '--- FAIL' $tmp/suite.log | head -3; fi
+(bash $out/demo.sh >$tmp/demo1.log 2>&1); echo "demo with patch: exit $?"
 git checkout -q -- .
-(bash $out/demo.sh >/tmp/seed_demo0.log 2>&1); echo "demo without patch: exit $?"
+(bash $out/demo.sh >$tmp/demo0.log 2>&1); echo "demo without patch: exit $?"
 git checkout -q -- . ; git clean -fdq -e out
-git -C /repo diff --quiet || { echo "/repo dirty"; exit 2; }
-git -C /repo apply $out/patch.diff || { echo "PATCH-DOES-NOT-APPLY-TO-REPO"; exit 2; }
+git apply $out/patch.diff
 cd /verif
 for c in "$@"; do
-  res=$(./check $c 2>&1 | grep -v '^built\|KNOWN-FINDING' | cut -c1-220 | head -3 | tr '\n' ' ')
+  res=$(VERIF_REPO=$wt VERIF_EVIDENCE_DIR=$tmp/ev VERIF_REPLAY_DIR=$tmp/rp ./check $c 2>&1 | grep -v '^built\|KNOWN-FINDING' | cut -c1-260 | head -3 | tr '\n' ' ')
   echo "check $c: $res"
 done
-git -C /repo checkout -q -- .
+cd $wt; git checkout -q -- .
+rm -rf $tmp
